@@ -48,6 +48,33 @@ def Field.setBit (f : Field) (r c : Nat) (t : Option Civil) : Field × Bool :=
         (res.1, acc.2 || res.2)) s0
     ({ f with views := s1.1 }, s1.2)
 
+/-- `createViewIfNotExists(name)` followed by a clear-`bulkImport` of (r, c) into that view. -/
+def clearInViews : List FView → VName → Nat → Nat → List FView
+  | [], n, _, _ => [⟨n, []⟩]
+  | v :: vs, n, r, c =>
+    if v.name = n then ⟨v.name, v.bits.filter (fun b => b != (r, c))⟩ :: vs
+    else v :: clearInViews vs n r c
+
+/-- `Field.Import(rowIDs, columnIDs, timestamps, clear)`; `none` = error (nothing written).
+A bit without timestamp goes to the standard view only — also on a field created with
+noStandardView, which thereby acquires a standard view; a bit with a timestamp goes to the views of
+its quantum units and (unless noStandardView) to the standard view.  Clear with timestamps is
+refused; a clear import therefore only ever touches the standard view. -/
+def Field.importBits (f : Field) (bits : List (Nat × Nat × Option Civil)) (clear : Bool) : Option Field :=
+  if bits.any (fun b => b.2.2.isSome) && (f.q == [] || clear) then none
+  else
+    let views := bits.foldl (fun (vs : List FView) b =>
+      let names : List VName := match b.2.2 with
+        | none => [.std]
+        | some t => (viewsByTime t f.q).map .tv ++ (if f.noStd then [] else [.std])
+      names.foldl (fun vs n =>
+        if clear then clearInViews vs n b.1 b.2.1 else (setInViews vs n b.1 b.2.1).1) vs) f.views
+    some { f with views := views }
+
+/-- A view created for a peer's CreateViewMessage (`createViewIfNotExistsBase`). -/
+def Field.mkView (f : Field) (n : VName) : Field :=
+  if f.views.any (fun v => v.name == n) then f else { f with views := f.views ++ [⟨n, []⟩] }
+
 def Field.view? (f : Field) (n : VName) : Option FView := f.views.find? (fun v => v.name == n)
 
 /-- Names of the views whose row `r` contains column `c`. -/
